@@ -147,3 +147,72 @@ pub fn with_operation<R>(
         },
     }
 }
+
+// ---------------------------------------------------------------------------------------------
+// printers (library entry points, composed as crates/cli/src/generate.rs does)
+
+use nitrogql_config_file::Config;
+use nitrogql_printer::{
+    print_js_for_operation_document, print_types_for_operation_document, OperationJSPrinterOptions, OperationTypePrinterOptions, ResolverTypePrinter,
+    ResolverTypePrinterOptions, SchemaTypePrinter, SchemaTypePrinterOptions,
+};
+use sourcemap_writer::JustWriter;
+
+/// parse a YAML/JSON config text (the real `parse_config`); panics are caught
+pub fn parse_config_text(text: &str) -> Result<Option<Config>, String> {
+    let t = text.to_string();
+    catch(move || nitrogql_config_file::parse_config(&t))
+}
+
+/// the schema declaration file text (`schemaOutput`)
+pub fn print_schema_types(resolved: &TypeSystemDocument, config: &Config) -> Result<String, String> {
+    catch(std::panic::AssertUnwindSafe(|| {
+        let mut result = String::new();
+        let mut writer = JustWriter::new(&mut result);
+        let options = SchemaTypePrinterOptions::from_config(config);
+        let mut printer = SchemaTypePrinter::new(options, &mut writer);
+        match printer.print_document(resolved) {
+            Ok(()) => Ok(result),
+            Err(e) => Err(format!("SchemaTypePrinter error: {e}")),
+        }
+    }))
+    .and_then(|x| x)
+}
+
+/// the resolvers declaration file text (`resolversOutput`), without plugins
+pub fn print_resolver_types(resolved: &TypeSystemDocument, config: &Config) -> Result<String, String> {
+    catch(std::panic::AssertUnwindSafe(|| {
+        let mut result = String::new();
+        let mut writer = JustWriter::new(&mut result);
+        let options = ResolverTypePrinterOptions::from_config(config);
+        let mut printer = ResolverTypePrinter::new(options, &mut writer);
+        let plugins: Vec<nitrogql_plugin::Plugin> = vec![];
+        match printer.print_document(resolved, &plugins) {
+            Ok(()) => Ok(result),
+            Err(e) => Err(format!("ResolverTypePrinter error: {e}")),
+        }
+    }))
+    .and_then(|x| x)
+}
+
+/// the operation declaration file text for one (import-resolved) operation document
+pub fn print_operation_types(schema: &Schema<Cow<str>, Pos>, doc: &OperationDocument, config: &Config) -> Result<String, String> {
+    catch(std::panic::AssertUnwindSafe(|| {
+        let mut result = String::new();
+        let mut writer = JustWriter::new(&mut result);
+        let options = OperationTypePrinterOptions::from_config(config);
+        print_types_for_operation_document(options, schema, doc, &mut writer);
+        result
+    }))
+}
+
+/// the JavaScript module text the loaders produce for one operation document
+pub fn print_operation_js(doc: &OperationDocument, config: &Config) -> Result<String, String> {
+    catch(std::panic::AssertUnwindSafe(|| {
+        let mut result = String::new();
+        let mut writer = JustWriter::new(&mut result);
+        let options = OperationJSPrinterOptions::from_config(config);
+        print_js_for_operation_document(options, doc, &mut writer);
+        result
+    }))
+}
